@@ -664,6 +664,7 @@ class _OsFacade(object):
                 raise _oserr(errno.ENOTEMPTY, dst)
         del sp.entries[sn]
         dp.entries[dn] = ino
+        s.kernel.post_event("rename", "%s>%s" % (src, dst))
 
     replace = rename
 
